@@ -72,9 +72,9 @@ Poll == /\ pc = "timers" /\ q # <<>> /\ q[1][1] > loopNow
         /\ LET timeout == q[1][1] - loopNow IN
            IF steps > 0
            THEN /\ now' = now + timeout /\ loopNow' = now + timeout /\ steps' = steps - 1 /\ pc' = "timers"
-                /\ Emit(<< [op |-> "poll", timeout |-> timeout, irq |-> FALSE, ready |-> <<>>] >>)
+                /\ Emit(<< [op |-> "poll", now |-> loopNow, timeout |-> timeout, irq |-> FALSE, ready |-> <<>>] >>)
            ELSE /\ pc' = "idle" /\ UNCHANGED <<now, loopNow, steps>>
-                /\ Emit(<< [op |-> "interrupt"], [op |-> "poll", timeout |-> timeout, irq |-> TRUE, ready |-> <<>>], [op |-> "runend"] >>)
+                /\ Emit(<< [op |-> "interrupt"], [op |-> "poll", now |-> loopNow, timeout |-> timeout, irq |-> TRUE, ready |-> <<>>], [op |-> "runend"] >>)
         /\ UNCHANGED <<q, rec>>
 
 Init == /\ st = Init0 /\ q = << <<0, 0>> >> /\ rec = [t \in Ts |-> [alive |-> FALSE, due |-> 0, iv |-> 0]]
